@@ -99,7 +99,7 @@ def parse_output(out):
 
 def classify(entry, src, rc, out, secs, timed_out):
     """-> dict(obligations: {label: discharged|failed|undecided}, detail...)"""
-    labels = list(entry.get("labels") or labels_of(src))
+    labels = list(entry.get("labels") or labels_of(src)) + list(entry.get("labels_extra", []))
     safety = f"K.{entry['harness']}.safety"
     p = parse_output(out)
     obl = {l: "discharged" for l in labels}
@@ -139,6 +139,14 @@ def classify(entry, src, rc, out, secs, timed_out):
             if non_abort:
                 obl[safety] = "failed"
             reason = f"expected abort on every path: status={p['status']} covers={cov} other_failures={[f['desc'] for f in non_abort][:5]}"
+    elif expect == "canary":
+        # deliberately false claim: it must be refuted, and its reachability cover must be satisfied
+        hit = [f for f in p["failed"] if any(l in f["desc"] for l in labels)]
+        cov = p["covers"] or {"satisfied": 0, "total": 0}
+        if not (p["status"] == "failed" and hit and len(hit) == len(p["failed"]) and cov["satisfied"] >= 1):
+            for l in labels:
+                obl[l] = "failed"
+            reason = f"canary not refuted as expected: status={p['status']} failed={[f['desc'] for f in p['failed']][:4]} covers={cov}"
     elif expect == "released":
         # the harness ends with a probe read of an allocation that must have been released: CBMC has to refute
         # exactly that read ("deallocated dynamic object") inside the harness file and nothing else
@@ -152,7 +160,10 @@ def classify(entry, src, rc, out, secs, timed_out):
             reason = f"expected the probe read to hit a released allocation: status={p['status']} probe_hits={len(probe)} other_failures={[f['desc'] for f in other][:5]}"
     else:
         raise ValueError(expect)
-    return {"obligations": obl, "reason": reason, "parsed": p, "tail": out[-3000:] if reason else ""}
+    bad = any(v != "discharged" for v in obl.values())
+    if bad and not reason:
+        reason = "verification failed without a named check: " + " | ".join(l.strip() for l in out.splitlines() if "FAIL" in l or "error" in l.lower())[:600]
+    return {"obligations": obl, "reason": reason, "parsed": p, "tail": out[-3000:] if bad else ""}
 
 
 def run_harness(crate, tdir, entry, src):
